@@ -1,19 +1,21 @@
 import HgVerif.Model.Tracking
+import HgVerif.Model.TrackingWhole
 import HgVerif.Driver.Proto
 /-! Model driver for the C04 `track` stream: same line protocol as `harness/drv_track.cpp`.
 The tree of positions (pre-order numbering, root = 0) comes from the `schema` line; writes are
-`Tracking.write`, invalidations `Tracking.invalidate`, the input views `Tracking.inLmt / inModified /
-inValid` over the per-input link record (`Tracking.linkStep / linkBind`). -/
+`Tracking.write`, invalidations `Tracking.invalidate`, whole-value writes of a container (`ws` / `wm`, a possibly
+sparse value) `Tracking.wholeOut` (`Model/TrackingWhole.lean`), the input views `Tracking.inLmt / inModified /
+inValid` over the per-input link record (`Tracking.linkStep / linkStepW / linkBind`). -/
 open HgVerif.Tracking HgVerif.Driver
 
 inductive Sh where
   | leaf
-  | node (kids : List Sh)
+  | node (list : Bool) (kids : List Sh)     -- `list` = fixed-size TSL (its native value is dense)
 deriving Inhabited
 
 partial def Sh.count : Sh → Nat
   | .leaf => 1
-  | .node ks => 1 + (ks.map Sh.count).sum
+  | .node _ ks => 1 + (ks.map Sh.count).sum
 
 def eat (lit : String) (cs : List Char) : Option (List Char) :=
   let l := lit.toList
@@ -43,7 +45,7 @@ partial def parseSh (depth : Nat) (cs : List Char) : Option (Sh × List Char) :=
             | none => none
             | some r4 =>
               let n := (String.ofList ds).toNat!
-              if n == 0 || n > 8 then none else some (.node (List.replicate n el), r4)
+              if n == 0 || n > 8 then none else some (.node true (List.replicate n el), r4)
       | none => none
 where
   fields (depth : Nat) (cs : List Char) (names : List String) (acc : List Sh) : Option (Sh × List Char) :=
@@ -61,22 +63,24 @@ where
         | some r3 => fields depth r3 (String.ofList nm :: names) (acc ++ [k])
         | none =>
           match eat "}" r2 with
-          | some r3 => some (.node (acc ++ [k]), r3)
+          | some r3 => some (.node false (acc ++ [k]), r3)
           | none => none
 
 structure Flat where
   parents : Array (Option Nat) := #[]
   leaf : Array Bool := #[]
+  list : Array Bool := #[]
   paths : Array String := #[]
 
 /-- pre-order numbering -/
 partial def flatten (s : Sh) (par : Option Nat) (path : String) (f : Flat) : Flat :=
   let me := f.parents.size
   let f1 : Flat := { parents := f.parents.push par, paths := f.paths.push (if path.isEmpty then "." else path),
-                     leaf := f.leaf.push (match s with | .leaf => true | _ => false) }
+                     leaf := f.leaf.push (match s with | .leaf => true | _ => false),
+                     list := f.list.push (match s with | .node true _ => true | _ => false) }
   match s with
   | .leaf => f1
-  | .node ks =>
+  | .node _ ks =>
     (ks.zipIdx).foldl (fun acc (k, i) => flatten k (some me) (if path.isEmpty then toString i else path ++ "." ++ toString i) acc) f1
 
 structure DS where
@@ -124,6 +128,41 @@ def notes (d : DS) (ns : List Nat) : String :=
     let c := ns.count p
     if c == 0 then "" else s!" {d.flat.paths.getD p "?"}*{c}")
 
+/-- `<spec> ::= <int> | (<spec or _>,...)` against the shape below position `p`: the present positions strictly below
+    `p`, the leaf values, the rest of the text (as `SpecParser` of `drv_track.cpp`: a list NESTED in the value, `top =
+    false`, is a native fixed list and must be dense) -/
+partial def parseSpec (d : DS) (top : Bool) (p : Nat) (cs : List Char) : Option (List Nat × List (Nat × Int) × List Char) :=
+  if d.flat.leaf.getD p false then
+    let (neg, r) := match cs with
+      | '-' :: r => (true, r)
+      | _ => (false, cs)
+    let ds := r.takeWhile Char.isDigit
+    let rest := r.dropWhile Char.isDigit
+    if ds.isEmpty || ds.length > 15 then none else
+    let n : Int := (String.ofList ds).toNat!
+    some ([], [(p, if neg then -n else n)], rest)
+  else
+    match cs with
+    | '(' :: r => kidsLoop (d.K.kids p) true r [] []
+    | _ => none
+where
+  kidsLoop (ks : List Nat) (first : Bool) (cs : List Char) (ps : List Nat) (vs : List (Nat × Int)) :
+      Option (List Nat × List (Nat × Int) × List Char) :=
+    match ks with
+    | [] =>
+      match cs with
+      | ')' :: r => some (ps, vs, r)
+      | _ => none
+    | k :: ks =>
+      let cs1 := if first then some cs else (match cs with | ',' :: r => some r | _ => none)
+      match cs1 with
+      | none => none
+      | some ('_' :: r) => if d.flat.list.getD p false && !top then none else kidsLoop ks false r ps vs
+      | some r =>
+        match parseSpec d false k r with
+        | none => none
+        | some (ps1, vs1, r1) => kidsLoop ks false r1 (ps ++ [k] ++ ps1) (vs ++ vs1)
+
 def doOp (d : DS) (o : Op) : DS × String :=
   let n := d.flat.parents.size
   let L := lmtOf d.L
@@ -161,6 +200,25 @@ def step (d : DS) (ws : List String) : DS × String :=
       if t == 0 then (d, "err:invalid-arg") else
       let (d1, ns) := doOp d (.w p t)
       ({ d1 with vals := d1.vals.setIfInBounds p v.toInt! }, "ok" ++ ns)
+  | [op, path, t, spec] =>
+    if op != "ws" && op != "wm" then (d, "bad-op") else
+    if !d.have_ || !isNat t then (d, "bad-op") else
+    match posOf d path with
+    | none => (d, "bad-op")
+    | some p =>
+      if d.flat.leaf.getD p false then (d, "bad-op") else
+      match parseSpec d true p spec.toList with
+      | some (ps, vs, []) =>
+        let t := t.toNat!
+        if t == 0 then (d, "err:invalid-arg") else
+        let n := d.flat.parents.size
+        let L := lmtOf d.L
+        let o := wholeOut d.K p t (fun x => ps.contains x) L
+        let vals := o.V.foldl (fun a l => match vs.lookup l with | some v => a.setIfInBounds l v | none => a) d.vals
+        ({ d with L := snap n o.L, vals := vals,
+                  links := d.links.map (fun k => k.map (linkStepW 0 (.ws p t (fun x => ps.contains x)) L o.L)) },
+         (match o.r with | none => "err:logic" | some _ => "ok") ++ notes d o.N)
+      | _ => (d, "bad-op")
   | ["inv", path, t] =>
     if !d.have_ || !isNat t then (d, "bad-op") else
     match posOf d path with
